@@ -1216,6 +1216,9 @@ def r2(ctx):
         if isinstance(e, ast.IfExp):
             a, b = const_values(e.body, depth + 1), const_values(e.orelse, depth + 1)
             return None if a is None or b is None else a | b
+        if isinstance(e, ast.BinOp) and isinstance(e.op, ast.Add):
+            a, b = const_values(e.left, depth + 1), const_values(e.right, depth + 1)
+            return None if a is None or b is None else {x + y for x in a for y in b}
         if isinstance(e, ast.Name):
             bs = mlbind.get(e.id, [])
             if not bs:
@@ -1265,26 +1268,30 @@ def r2(ctx):
         shaped.append((n, pres, sufs))
     # `SEP.join(<line or INDENT + line> for ...)`: SEP follows every line but the last
     for n in walk(ml.node, into_defs=True):
-        if isinstance(n, ast.Call) and isinstance(n.func, ast.Attribute) and n.func.attr == "join" and len(n.args) == 1 \
-                and isinstance(n.args[0], (ast.GeneratorExp, ast.ListComp)):
+        if isinstance(n, ast.Call) and isinstance(n.func, ast.Attribute) and n.func.attr == "join" and len(n.args) == 1:
             seps = const_values(n.func.value)
             if not seps or not any("\n" in c for c in seps):
                 continue
-            arms = [n.args[0].elt]
-            while any(isinstance(a, ast.IfExp) for a in arms):
-                arms = [x for a in arms for x in ([a.body, a.orelse] if isinstance(a, ast.IfExp) else [a])]
-            pres, sufs, okshape = set(), set(seps), True
-            for a in arms:
-                ps = parts_of(a) or [a]
-                vals = [const_values(x) for x in ps]
-                var_idx = [i for i, v in enumerate(vals) if v is None]
-                if len(var_idx) != 1:
-                    okshape = False
-                    break
-                vi = var_idx[0]
-                pres |= {"".join(c) for c in _it.product(*vals[:vi])} if vi else {""}
-                if vi + 1 < len(ps):
-                    sufs = {x + y for x in ({"".join(c) for c in _it.product(*vals[vi + 1:])}) for y in seps}
+            # the separator may carry the next line's indent after its newline: split it at the last newline
+            sep_sufs = {c[:c.rindex("\n") + 1] if "\n" in c else c for c in seps}
+            sep_pres = {c[c.rindex("\n") + 1:] if "\n" in c else "" for c in seps}
+            pres, sufs, okshape = set(sep_pres) | {""}, set(sep_sufs), True
+            if isinstance(n.args[0], (ast.GeneratorExp, ast.ListComp)):
+                arms = [n.args[0].elt]
+                while any(isinstance(a, ast.IfExp) for a in arms):
+                    arms = [x for a in arms for x in ([a.body, a.orelse] if isinstance(a, ast.IfExp) else [a])]
+                for a in arms:
+                    ps = parts_of(a) or [a]
+                    vals = [const_values(x) for x in ps]
+                    var_idx = [i for i, v in enumerate(vals) if v is None]
+                    if len(var_idx) != 1:
+                        okshape = False
+                        break
+                    vi = var_idx[0]
+                    arm_pres = {"".join(c) for c in _it.product(*vals[:vi])} if vi else {""}
+                    pres |= {x + y for x in sep_pres | {""} for y in arm_pres}
+                    if vi + 1 < len(ps):
+                        sufs = {x + y for x in ({"".join(c) for c in _it.product(*vals[vi + 1:])}) for y in sep_sufs}
             if okshape:
                 shaped.append((n, pres, sufs))
     ctx.floor("C11.R2", "line assembly expressions in _multi_line_pformat", len(shaped), 1)
@@ -1840,7 +1847,169 @@ def r6(ctx):
            "would stay unserialized")
 
 
+def r7(ctx):
+    """A packed value whose serializer consults a sibling variable of its block needs that sibling's real value in
+    place: the sibling is either not a packed variable, or of a serializer kind the parser resolves first, or printed
+    (hence queued) earlier in the block."""
+    from ..engine import RenamedCtx
+    from ..tmplmodel import parse_template
+    from . import c09
+    repo = ctx.repo
+    ctx.rule("C11.R7", "block-level dependencies of packed values: a sibling variable a subfield serializer switches on is "
+                       "serialized before it (standalone enum/flag kind the parser resolves first, or earlier in the block)")
+    pf = repo.fn("HumanMessageSerializer.from_human_string")
+    # serializer classes the parser resolves first: isinstance(<queued serializer>, (A, B)) in a sort key / filter
+    standalone: Set[str] = set()
+    for c in calls(pf.node, into_defs=True):
+        if isinstance(c.func, ast.Name) and c.func.id == "isinstance" and len(c.args) == 2 and \
+                any(isinstance(a, (ast.Lambda,)) or (isinstance(a, ast.Call) and call_attr(a) in ("sort", "sorted", "filter"))
+                    for a in ancestors(c)):
+            t = c.args[1]
+            if isinstance(t, ast.Name):
+                b = [st.value for st in stores(pf.node, into_defs=True) if st.path == t.id and st.value is not None]
+                t = b[-1] if b else t
+            for e in (t.elts if isinstance(t, ast.Tuple) else [t]):
+                standalone.add((ap(e) or "").split(".")[-1])
+    kind_cls = {"enum": "IntEnumSubfieldSerializer", "flag": "IntFlagSubfieldSerializer"}
+    rc = RenamedCtx(ctx, {"C09.R1": "C11.R7", "C09": "C11.R7"})
+    regs = c09.registrations(rc)
+    tmpl = parse_template(repo.root, repo.overlay)
+    by_key = {(r.msg, r.block, r.var): r for r in regs}
+    n_dep = 0
+    for r in regs:
+        if r.kind != "subfield":
+            continue
+        fields: Set[str] = set()
+        names = c09._mro_names(repo, r.cls)
+        for base, attr in (("EnumSwitchedSubfieldSerializer", "ENUM_FIELD"), ("FlagSwitchedSubfieldSerializer", "FLAG_FIELD")):
+            if base in names:
+                node, owner = c09._class_attr_node(repo, r.cls, attr)
+                if isinstance(node, ast.Constant) and isinstance(node.value, str):
+                    fields.add(node.value)
+        anode, aowner = c09._class_attr_node(repo, r.cls, "ADAPTER")
+        if isinstance(anode, ast.Call):
+            aci = c09._resolve_cls(repo, aowner.module, anode.func)
+            if aci is not None:
+                fam = c09._mro_names(repo, aci)
+                if aci.module.rel == c09.SERMOD and aci.name in ("ContextAdapter", "ContextSwitch"):
+                    a0 = anode.args[0] if anode.args else None
+                    f_ = c09._field_of_fun(repo, aowner.module, a0)
+                    if f_:
+                        fields.add(f_)
+                elif "ContextAdapter" in fam or "ContextSwitch" in fam:
+                    f_, kind = c09._ctx_field_of_class(repo, aci)
+                    if f_ and kind == "ctx":
+                        fields.add(f_)
+        m = tmpl.get(r.msg)
+        b = m.block(r.block) if m else None
+        if b is None:
+            continue
+        order = [v.name for v in b.vars]
+        for f_ in sorted(fields):
+            dep = by_key.get((r.msg, r.block, f_))
+            if f_ not in order or r.var not in order:
+                continue
+            n_dep += 1
+            if dep is None:
+                ok, why = True, "plain variable"
+            else:
+                dep_cls = kind_cls.get(dep.kind) or dep.cls.name
+                dep_names = {dep_cls} | (set(c09._mro_names(repo, dep.cls)) if dep.kind == "subfield" else set())
+                first = bool(dep_names & standalone)
+                earlier = order.index(f_) < order.index(r.var)
+                ok = first or earlier
+                why = f"{f_} is packed through {dep_cls} ({'resolved first' if first else 'not one of ' + str(sorted(standalone))}), " \
+                      f"{'before' if earlier else 'after'} {r.var} in the block"
+            ctx.ob("C11.R7", f"{r.cls.name} on {r.msg}.{r.block}.{r.var}: sibling {f_} it switches on is in place first", ok,
+                   ctx.w(r.mod, r.node), why + ("" if ok else ": its serialize() runs while the sibling still holds the "
+                                                "placeholder, so the wrong sub-codec is chosen"))
+    ctx.floor("C11.R7", "packed variables that switch on a sibling variable", n_dep, 3)
+
+
+def r8(ctx):
+    """Two-valued adapters (decode = bool(raw)) are lossless only on a one-bit domain."""
+    repo = ctx.repo
+    ctx.rule("C11.R8", "adapters whose decode is bool(raw) wrap one-bit fields only (a wider wire domain collapses to two values)")
+    from . import c09
+    smod = repo.module(c09.SERMOD)
+    narrowing = []
+    for lst in repo.classes.values():
+        for ci in lst:
+            if ci.module is smod and "decode" in ci.methods and "Adapter" in c09._mro_names(repo, ci):
+                d = ci.methods["decode"]
+                ps = [a.arg for a in d.node.args.args]
+                rets = [n.value for n in walk(d.node) if isinstance(n, ast.Return) and n.value is not None]
+                if rets and len(ps) > 1 and all(isinstance(v, ast.Call) and ap(v.func) == "bool" and len(v.args) == 1
+                                                and ap(v.args[0]) == ps[1] for v in rets):
+                    narrowing.append(ci)
+    ctx.floor("C11.R8", "two-valued adapter classes", len(narrowing), 1)
+    n_inst = 0
+    for mod in repo.modules.values():
+        for c in calls(mod.tree, into_defs=True):
+            ci = c09._resolve_cls(repo, mod, c.func)
+            if ci is None or ci not in narrowing:
+                continue
+            if any(isinstance(a, FUNC_TYPES) and a.name == "__init__" for a in ancestors(c)):
+                continue
+            n_inst += 1
+            child = c.args[0] if c.args else next((k.value for k in c.keywords if k.arg == "child_spec"), None)
+            bits = None
+            p_ = parent(c)
+            host = parent(p_) if isinstance(p_, ast.keyword) else p_
+            if isinstance(host, ast.Call) and call_attr(host) == "bitfield_field":
+                bv = next((k.value for k in host.keywords if k.arg == "bits"), host.args[0] if host.args else None)
+                bits = ConstEval(repo, mod).ev(bv) if bv is not None else None
+            if child is not None and not (isinstance(child, ast.Constant) and child.value is None):
+                ok, why = False, f"wraps {norm(child)}, whose wire domain has more than two values"
+            else:
+                ok, why = bits == 1, f"bit width {bits}"
+            ctx.ob("C11.R8", f"{mod.rel}: `{norm(host if isinstance(host, ast.Call) and bits is not None else c)}` two-valued adapter on a one-bit field",
+                   ok, ctx.w(mod, c), why + ("" if ok else ": every raw value other than 0/1 prints as True and re-encodes as 1"))
+    ctx.floor("C11.R8", "two-valued adapter instances", n_inst, 3)
+
+
+def r9(ctx):
+    """pprint lays out subclasses of builtin containers only while they keep the builtin __repr__; the pretty printer
+    neutralises the overrides it knows about."""
+    repo = ctx.repo
+    ctx.rule("C11.R9", "value classes derived from builtin containers keep a literal repr: a __repr__ override is one the "
+                       "pretty printer patches back to the builtin while printing")
+    BUILTINS_ = {"list", "dict", "tuple", "set", "frozenset", "List", "Dict", "Tuple", "Set", "MutableMapping"}
+    hmod = repo.module(HELPERS)
+    patched: Set[str] = set()
+    for st in stores(hmod.tree, into_defs=True):
+        if st.kind == "assign" and st.path.endswith(".__repr__") and st.value is not None and \
+                (ap(st.value) or "").split(".")[0] in ("dict", "list", "tuple", "set"):
+            patched.add(st.path.split(".")[0])
+    tm = repo.module("hippolyzer/lib/base/templates.py")
+    scope = {tm.rel, "hippolyzer/lib/base/serialization.py", "hippolyzer/lib/base/datatypes.py", "hippolyzer/lib/base/multidict.py"}
+    for tgt in tm.imports.values():
+        for cand in (tgt, tgt.rpartition(".")[0]):
+            m2 = repo.by_modname.get(cand)
+            if m2 is not None:
+                scope.add(m2.rel)
+    n = 0
+    for lst in repo.classes.values():
+        for ci in lst:
+            if ci.module.rel not in scope:
+                continue
+            allb = {b.split("[")[0].split(".")[-1] for k in repo.mro(ci) for b in k.base_names}
+            if not allb & BUILTINS_:
+                continue
+            n += 1
+            owner = next((k for k in repo.mro(ci) if "__repr__" in k.methods), None)
+            ok = owner is None or owner.name in patched or ci.name in patched
+            ctx.ob("C11.R9", f"{ci.name}: builtin-container subclass prints as a literal", ok,
+                   ctx.w(ci.module, owner.methods["__repr__"].node if owner else ci.node),
+                   "" if ok else f"{owner.name}.__repr__ overrides the builtin repr and HippoPrettyPrinter does not patch it back: "
+                   "pprint falls back to that repr, the beautified text is no Python literal and safe-mode parsing rejects it")
+    ctx.floor("C11.R9", "builtin-container subclasses among the value classes", n, 2)
+
+
 def run(ctx):
+    r9(ctx)
+    r8(ctx)
+    r7(ctx)
     r6(ctx)
     r1(ctx)
     r2(ctx)
